@@ -606,6 +606,7 @@ func (fv *FV) val(fr *Frame, v ssa.Value) Value {
 }
 
 var globalIDs = map[string]int{}
+var globalNames = map[int]string{}
 
 func (fv *FV) globalAddr(g *ssa.Global) *Term {
 	key := g.Pkg.Pkg.Path() + "." + g.Name()
@@ -613,6 +614,7 @@ func (fv *FV) globalAddr(g *ssa.Global) *Term {
 	if !ok {
 		id = len(globalIDs) + 1
 		globalIDs[key] = id
+		globalNames[id] = key
 	}
 	return Obj(IntLit(int64(-1000 - id)))
 }
@@ -848,6 +850,17 @@ func (fv *FV) frameAlts(st *State, addr *Term, isElem bool, lo, hi *Term) *Term 
 			return True
 		}
 	}
+	// unexported package-level state of another package is not observable by this package's callers:
+	// it need not be listed in modifies clauses (documented in DESIGN.md, trusted base)
+	if root.Op == "obj" && root.Args[0].Op == "int" {
+		if name, ok := globalNames[int(-root.Args[0].Int.Int64()-1000)]; ok {
+			k := strings.LastIndex(name, ".")
+			if k > 0 && name[:k] != fv.pkgPath && !token.IsExported(name[k+1:]) {
+				fv.trusted["frame exemption: unexported package-level variable "+name+" (not observable outside its package)"] = true
+				return True
+			}
+		}
+	}
 	var alts []*Term
 	alts = append(alts, Ge(RootID(addr), st.frameWM))
 	for _, m := range st.mods {
@@ -865,7 +878,11 @@ func (fv *FV) frameAlts(st *State, addr *Term, isElem bool, lo, hi *Term) *Term 
 				p := addr
 				for p.Op == "emb" {
 					p = p.Args[0]
-					alts = append(alts, Eq(p, m.addr))
+					if m.guard != nil {
+						alts = append(alts, And(m.guard, Eq(p, m.addr)))
+					} else {
+						alts = append(alts, Eq(p, m.addr))
+					}
 				}
 			}
 		case "each":
@@ -874,7 +891,11 @@ func (fv *FV) frameAlts(st *State, addr *Term, isElem bool, lo, hi *Term) *Term 
 			}
 		case "mem":
 			if isElem {
-				alts = append(alts, And(Eq(addr, m.addr), fv.idxLe(m.lo, lo), fv.idxLe(hi, m.hi)))
+				c := And(Eq(addr, m.addr), fv.idxLe(m.lo, lo), fv.idxLe(hi, m.hi))
+				if m.guard != nil {
+					c = And(m.guard, c)
+				}
+				alts = append(alts, c)
 			} else if addr.Op == "elem" {
 				alts = append(alts, And(Eq(addr.Args[0], m.addr), fv.idxLe(m.lo, addr.Args[1]), fv.idxLt(addr.Args[1], m.hi)))
 			}
